@@ -37,6 +37,9 @@ fn cfg(optional: bool, remap: bool) -> nitrogql_config_file::Config {
         use nitrogql_config_file::{ScalarTypeConfig, SendReceiveScalarTypeConfig};
         c.generate.r#type.scalar_types.insert("ID".into(), ScalarTypeConfig::Single("string".into()));
         c.generate.r#type.scalar_types.insert("Int".into(), ScalarTypeConfig::SendReceive(SendReceiveScalarTypeConfig { send: "number | bigint".into(), receive: "number".into() }));
+        // a mapping that mentions an identifier equal to the scalar's own schema name (the printer then
+        // declares the scalar under a temporary local name)
+        c.generate.r#type.scalar_types.insert("Date".into(), ScalarTypeConfig::SendReceive(SendReceiveScalarTypeConfig { send: "Date | string".into(), receive: "string".into() }));
     }
     c
 }
@@ -50,6 +53,7 @@ fn scalar_in(name: &str) -> Option<&'static str> {
         match name {
             "ID" => return Some("string"),
             "Int" => return Some("number | bigint"),
+            "Date" => return Some("Date | string"),
             _ => {}
         }
     }
@@ -58,7 +62,7 @@ fn scalar_in(name: &str) -> Option<&'static str> {
 
 /// SEM_SCHEMA plus a small input object without defaults/required fields
 fn schema_text() -> String {
-    format!("{}\ninput Pair {{ a: Int b: [Kind!] m: [[Int]!] }}\nextend type Query {{ pair(p: Pair): Int }}\n", crate::gen_sem::SEM_SCHEMA)
+    format!("{}\ninput Pair {{ a: Int b: [Kind!] m: [[Int]!] d: Date ds: [Date!] }}\nextend type Query {{ pair(p: Pair): Int }}\n", crate::gen_sem::SEM_SCHEMA)
 }
 
 struct Subj {
